@@ -95,6 +95,14 @@ def run_case(case):
             nontrivial += 1
             ws.append((wu, wd))
             refs.append(ref)
+            if len(ws) == 1:
+                # the force bias is a ratio: it does not depend on the norm of the walker (small / large norms, un-normalised walkers)
+                for sc_ in (1e-3, 1e2):
+                    if entry == "u":
+                        fbs = np.asarray(trial._calc_force_bias(jnp.array(sc_ * wu), jnp.array(sc_ * wd), hd, wd_))
+                    else:
+                        fbs = np.asarray(trial._calc_force_bias_restricted(jnp.array(sc_ * wu), hd, wd_))
+                    events.append(judge("force-bias/walker-rescaled-" + entry, float(np.max(np.abs(fbs - ref))), 10 * tol, "%s/fb-rescaled-%s" % (key0, entry), scale=sc_))
             if sample is None:
                 sample = {"entry": entry, "code": fb, "ref": ref, "ovl_rel": rel}
         # forward-mode derivative of the library's own overlap along exp(x L_g)
